@@ -141,6 +141,34 @@ static void hygiene() {
         else if (f == 1 && (g_pool[0].used != 5 || g_pool[0].offset != 0)) vp::fail("hygiene:repeat", "repeat did not make the filled octets unread again", rep);
     }
 }
+// A byte buffer over storage that cannot be written (a canned script in flash, a file mapped read-only): every operation that has nothing
+// to store - consume, consume_at_most, repeat, reset, the queries, and a rewind while the read mark is at zero - works there.
+static void readonly_storage() {
+    for (size_t size : {(size_t)1, (size_t)2, (size_t)7, (size_t)64, (size_t)512, (size_t)4096}) for (size_t k : {(size_t)0, (size_t)1, size / 2, size}) {
+        std::string rep = vp::fmt("readonly-storage %zu %zu\n", size, k);
+        vp::CaseScope scope([rep] { return rep; });
+        std::vector<uint8_t> content(size); for (size_t i = 0; i < size; i++) content[i] = (uint8_t)(0x31 + 3 * i);
+        vp::RoBlock ro(content.data(), size);
+        if (!ro.p) return;
+        ByteBuffer b; byte_buffer_use(&b, ro.p, size);
+        std::vector<uint8_t> out(size + 1, 0);
+        bool ok = true;
+        byte_buffer_rewind(&b);                                          // unread buffer, read mark at zero: nothing to move
+        if (b.offset != 0 || b.used != size) ok = false;
+        if (k && byte_buffer_consume(&b, out.data(), k) != 0) ok = false;
+        if (memcmp(out.data(), content.data(), k) != 0) ok = false;
+        byte_buffer_repeat(&b);                                          // all filled octets unread again
+        if (b.offset != 0 || byte_buffer_rest(&b) != size) ok = false;
+        byte_buffer_rewind(&b);
+        int got = byte_buffer_consume_at_most(&b, out.data(), size + 1);
+        if (got != (int)size || memcmp(out.data(), content.data(), size) != 0) ok = false;
+        byte_buffer_reset(&b);
+        if (b.used != 0 || b.offset != 0) ok = false;
+        vp::count(); vp::cls("operations-without-stores-on-read-only-storage"); vp::nontrivial(vp::fnv(rep));
+        if (!ok) vp::fail("readonly-storage:wrong-result", "consume/repeat/rewind/reset on a buffer over read-only storage deviate from the list model", rep);
+    }
+}
+
 // Observation sweep: the harness owns the schedule (as in C16). A forked child single-steps one byte_buffer_add / byte_buffer_consume with the
 // x86 trap flag; at instruction k the SIGTRAP handler either
 //   (observe) acts as the other end of the queue - it drains the same buffer with byte_buffer_consume_at_most, the usual transmit-interrupt
@@ -249,7 +277,7 @@ static void run() {
                                "from every valid (size<=%zu, used, offset) initial state; every set/use/space argument combination; every API function called with side-effecting argument expressions (evaluated exactly once); buffers with 2^32-1 .. 2^32+3 unread octets (address space only)",
                                g_maxdepth, maxsize);
     vp::stats().exhaustive = true;
-    if (a.shard == 0) { setup_calls(); hygiene(); }
+    if (a.shard == 0) { setup_calls(); hygiene(); readonly_storage(); }
     if (a.shard == 2 % a.nshards && !vp::vg().on) observation_sweep();
     if (a.shard == 1 % a.nshards && !vp::vg().on) giant_buffers();
     // initial states are dealt round-robin to the shards
@@ -275,6 +303,7 @@ static bool replay(const std::string &text) {
         return vp::stats().failures.empty();
     }
     if (!ls.empty() && ls[0].rfind("hygiene", 0) == 0) { hygiene(); return vp::stats().failures.empty(); }
+    if (!ls.empty() && ls[0].rfind("readonly-storage", 0) == 0) { readonly_storage(); return vp::stats().failures.empty(); }
     if (!ls.empty() && ls[0].rfind("observation-sweep", 0) == 0) { observation_sweep(); return vp::stats().failures.empty(); }
     if (!ls.empty() && ls[0].rfind("giant", 0) == 0) { giant_buffers(); return vp::stats().failures.empty(); }
     Case c;
